@@ -744,7 +744,8 @@ def ident_cases(draw):
     if src in ("ttf", "tu+ttf"):
         fmt = 0 if rnd.random() < (0.6 if nbytes == 1 else 0.15) else 4
         m = C.random_injective_map(rnd, fmt, all_codes)
-        pid, eid = rnd.choice([(0, 3), (3, 1), (0, 4), (3, 1)])
+        # platform 0 is Unicode whatever its encoding id (0 = 1.0, 1 = 1.1, 2 = ISO 10646, 3 = 2.0 BMP, 4 = 2.0 full)
+        pid, eid = rnd.choice([(0, 3), (3, 1), (0, 4), (3, 1), (0, 0), (0, 1), (0, 2)])
         ttf_subtables = [(pid, eid, fmt, m)]
         if rnd.random() < 0.4:
             # a Macintosh-Roman subtable holds Mac codes, not Unicode: it does not define Unicode values
